@@ -1,4 +1,4 @@
-From Verif Require Import Lib.Base NodeDB.Spec NodeDB.Badger NodeDB.BadgerProofs NodeDB.SpecProofs NodeDB.Examples NodeDB.Final.
+From Verif Require Import Lib.Base NodeDB.Spec NodeDB.Badger NodeDB.BadgerProofs NodeDB.SpecProofs NodeDB.Examples NodeDB.Final NodeDB.PathBadger NodeDB.PathBadgerProofs NodeDB.StructProofs.
 
 Theorem finalized_readable :
   forall h s v rid c,
@@ -88,3 +88,47 @@ Theorem alternative_prune_rule_keeps_readable :
   fst (b_prune_alt d 1) = EOk /\ b_status (snd (b_prune_alt d 1)) 2 4 = 1.
 Proof. exact prune_alt_keeps_readable. Qed.
 Print Assumptions alternative_prune_rule_keeps_readable.
+
+Theorem pathbadger_pipelined_nonzero_seqno_refuted :
+  p_accepted pdb0 h_pipe = true /\
+  p_has (p_run pdb0 h_pipe) 3 3 = true /\ p_status (p_run pdb0 h_pipe) 3 3 = 2 /\
+  s_read (s_run sdb0 h_pipe_spec) 3 3 = Some [(3, 1); (6, 1)] /\
+  p_status (p_run pdb0 h_pipe) 2 3 = 1 /\
+  p_status (p_run pdb0 (h_pipe ++ [PFinalize 2 [3]])) 3 3 = 1 /\
+  p_status (p_run pdb0 [PCommit 2 1 3 None [(3, 1); (6, 1)] [((2, 1), 2); ((2, 2), 3)];
+                        PCommit 2 1 2 None [(2, 1)] [];
+                        PCommit 3 1 3 (Some (2, 3)) [] [((2, 1), 2); ((2, 2), 3)]]) 3 3 = 1.
+Proof. exact pathbadger_pipelined_nonzero_seqno_refuted_l. Qed.
+Print Assumptions pathbadger_pipelined_nonzero_seqno_refuted.
+
+Theorem pathbadger_prune_rule :
+  forall d v d', p_prune d v = (EOk, d') ->
+  exists l, p_last d = Some l /\ v = p_earliest d /\ v < l /\ p_earliest d' = v + 1 /\ p_last d' = Some l.
+Proof. exact p_prune_rule. Qed.
+Print Assumptions pathbadger_prune_rule.
+
+Theorem pathbadger_finalize_lists_only_requested_roots :
+  forall d v rids d' r, p_finalize d v rids = (EOk, d') ->
+  has_rootkey d' v r = true -> nmem r rids = true /\ has_rootkey d v r = true.
+Proof. exact p_finalize_rootkeys. Qed.
+Print Assumptions pathbadger_finalize_lists_only_requested_roots.
+
+Theorem no_lone_sharing_implies_prune_safe :
+  forall d ver, inv d -> lin d -> s_prune_check (b_meta d) ver = EOk -> no_lone_sharing d ver = true ->
+  prune_safe d ver = true.
+Proof. exact structural_prune_safe. Qed.
+Print Assumptions no_lone_sharing_implies_prune_safe.
+
+Theorem badger_refines_spec_structural :
+  forall h, ok_run_struct bdb0 h = true ->
+  inv (b_run bdb0 h) /\ b_meta (b_run bdb0 h) = s_run sdb0 h /\
+  forall v rid, s_has (b_meta (b_run bdb0 h)) v rid = true ->
+    b_status (b_run bdb0 h) v rid = 1 /\ b_read (b_run bdb0 h) v rid = s_read (s_run sdb0 h) v rid.
+Proof. exact badger_refines_spec_structural_l. Qed.
+Print Assumptions badger_refines_spec_structural.
+
+Theorem structural_side_conditions_satisfiable :
+  ok_run_struct bdb0 h_good = true /\
+  no_lone_sharing (b_run bdb0 (firstn 5 h_prune_shared)) 1 = false.
+Proof. exact structural_conditions_satisfiable. Qed.
+Print Assumptions structural_side_conditions_satisfiable.
